@@ -180,6 +180,10 @@ func c04Files(c *Ctx) {
 			r := k.Rand()
 			nf := 3 + r.IntN(10)
 			nr := 1 + r.IntN(20)
+			if r.IntN(60) == 0 { // many records
+				nr = 300 + r.IntN(3000)
+				k.Count("many_record_files", 1)
+			}
 			var text bytes.Buffer
 			var want []item
 			var ms []func() ([]byte, error)
@@ -193,7 +197,7 @@ func c04Files(c *Ctx) {
 			// all records marshalled first (results held), then written and compared
 			text.Write(heldMarshalCheck(k, ms, ws))
 			k.Input("N", nf)
-			k.Input("text", text.Bytes())
+			k.Input("text", func() string { return describeText(text.Bytes()) })
 			got, over := collect(codecByName("bed").seq(bytes.NewReader(text.Bytes())), nr+3)
 			if over || !sameTrace(got, want) {
 				k.Failf("file-roundtrip", "file of %d records with N=%d decoded differently:\n got  %s\n want %s", nr, nf, traceString(got), traceString(want))
